@@ -61,9 +61,11 @@ fn gen_case(rng: &mut Rng) -> Case {
     let mut next_id: u32 = rng.below(5) as u32;
     let mut other_id: u32 = 1000;
     for d in 0..n_deliveries {
-        let data_len = *rng.pick(&[0usize, 1, 5, 40, 200, 300]);
+        // now and then a delivery in very many frames (a small max-frame-size, a large message)
+        let many = rng.chance(1, 12);
+        let data_len = if many { *rng.pick(&[300usize, 1000]) } else { *rng.pick(&[0usize, 1, 5, 40, 200, 300]) };
         let msg = message_bytes(rng.next(), data_len);
-        let n_frames = rng.range(1, 5) as usize;
+        let n_frames = if many { *rng.pick(&[63usize, 64, 65, 66, 129, 200]) } else { rng.range(1, 5) as usize };
         // cut points anywhere, including inside the section header / length field, and empty pieces
         let mut cuts: Vec<usize> = (0..n_frames - 1).map(|_| rng.below(msg.len() as u64 + 1) as usize).collect();
         cuts.sort();
